@@ -582,6 +582,27 @@ class TypeSys:
             ext = sorted(self.model.external_bases(fn.cls))
             return CallRes("ext", ext_name=f.attr, ext_recv=f"super:{','.join(ext)}",
                            recv=ast.Name(id=fn.params[0], ctx=ast.Load()) if fn.params else None)
+        if isinstance(f, ast.IfExp):
+            # (A if c else B)(...): any of the arms (an arm that stands for a failed table lookup calls nothing)
+            arms = []
+            stack = [f]
+            while stack:
+                x = stack.pop()
+                if isinstance(x, ast.IfExp):
+                    stack.extend([x.body, x.orelse])
+                elif isinstance(x, ast.Call) and isinstance(x.func, ast.Name) and x.func.id == "KEY_ERROR":
+                    continue
+                else:
+                    arms.append(x)
+            res = [self.resolve_call(ast.copy_location(ast.Call(func=a, args=e.args, keywords=e.keywords), e), fn) for a in arms]
+            if res and all(r_.kind == "ctor" for r_ in res):
+                ks = set().union(*[r_.classes or set() for r_ in res])
+                return CallRes("ctor", self._ctor_targets(ks), classes=ks)
+            if res and all(r_.kind in ("method", "func", "ctor", "super", "classcall", "unboundcall") for r_ in res) and len({r_.kind for r_ in res}) == 1:
+                out = res[0]
+                for r_ in res[1:]:
+                    out.targets |= r_.targets
+                return out
         if isinstance(f, ast.Subscript):
             # table[i](...): a module-level sequence of classes (e.g. tuple(instruction_map.values())) -> any of them
             seq = class_sequence(self.model, m, f.value)
